@@ -76,6 +76,7 @@ Definition gstep (maxc : Z) (g : st * flight) (o : op) : option (st * flight) :=
                     | Some f' => Some (release (fst g) t a, f')
                     end
   | BadSource => Some g
+  | Rewrap => Some g
   | Burst _ _ => Some g
   end.
 
@@ -87,9 +88,10 @@ Fixpoint gexec (maxc : Z) (g : st * flight) (ops : list op) : option (st * fligh
 
 (* the ghost component does not influence the limiter *)
 Lemma gstep_erase maxc g o g' : gstep maxc g o = Some g' -> fst g' = fst (step maxc (fst g) o).
-Proof. destruct o as [t a|t a p| |bt bk]; cbn.
+Proof. destruct o as [t a|t a p| | |bt bk]; cbn.
   - destruct (acquire maxc (fst g) t a); intros H; inv H; reflexivity.
   - destruct (remove1 (snd g) t a); intros H; inv H; reflexivity.
+  - intros H; inv H; reflexivity.
   - intros H; inv H; reflexivity.
   - intros H; inv H; reflexivity. Qed.
 
@@ -137,7 +139,7 @@ Lemma Inv_init : Inv (init, []).
 Proof. repeat split; cbn; try constructor; tauto. Qed.
 
 Lemma Inv_step maxc g o g' : Inv g -> gstep maxc g o = Some g' -> Inv g'.
-Proof. destruct g as [s f]. unfold Inv. cbn [fst snd]. intros (Hwf & Hget & Htot). destruct o as [t a|t a p| |bt bk]; cbn [gstep fst snd].
+Proof. destruct g as [s f]. unfold Inv. cbn [fst snd]. intros (Hwf & Hget & Htot). destruct o as [t a|t a p| | |bt bk]; cbn [gstep fst snd].
   - unfold acquire. destruct (maxc <=? get (cs s) t); intros H; inv H; cbn [fst snd cs total]; [auto|].
     split; [apply wfmap_set; assumption|]. split; [|cbn [sumall]; lia].
     intros x. cbn [sumfor]. destruct (Z.eqb_spec x t) as [->|Hne].
@@ -150,6 +152,7 @@ Proof. destruct g as [s f]. unfold Inv. cbn [fst snd]. intros (Hwf & Hget & Htot
       * subst x. rewrite get_set_same by apply Hwf. lia.
       * rewrite get_set_other by congruence. lia.
     + rewrite (remove1_sumall _ _ _ _ E) in Htot. lia.
+  - intros H; inv H. auto.
   - intros H; inv H. auto.
   - intros H; inv H. auto. Qed.
 
@@ -173,7 +176,7 @@ Proof. revert f'; induction f as [|[t' a'] f IH]; cbn; intros f' E; [discriminat
 Lemma Bnd_step maxc A g o g' :
   Inv g -> Bnd maxc A g -> (forall t a, o = Arrive t a -> 1 <= a <= A) -> gstep maxc g o = Some g' -> Bnd maxc A g'.
 Proof. destruct g as [s f]. unfold Inv, Bnd. cbn [fst snd]. intros (Hwf & Hget & Htot) [H1 Hb] Hu.
-  destruct o as [t a|t a p| |bt bk]; cbn [gstep fst snd].
+  destruct o as [t a|t a p| | |bt bk]; cbn [gstep fst snd].
   - unfold acquire. destruct (Z.leb_spec maxc (get (cs s) t)) as [Hle|Hlt]; intros Hs; inv Hs; cbn [fst snd]; [auto|].
     specialize (Hu t a eq_refl). split.
     + intros x [<-|Hx]; [exact Hu|apply H1; assumption].
@@ -185,6 +188,7 @@ Proof. destruct g as [s f]. unfold Inv, Bnd. cbn [fst snd]. intros (Hwf & Hget &
     + intros x Hx. apply H1, Hsub, Hx.
     + intros x. specialize (Hb x). rewrite (remove1_sumfor _ _ _ _ x E) in Hb.
       specialize (H1 _ Hin). cbn in H1. destruct (x =? t); lia.
+  - intros Hs; inv Hs. auto.
   - intros Hs; inv Hs. auto.
   - intros Hs; inv Hs. auto. Qed.
 
@@ -253,7 +257,7 @@ Proof. intros H Hn. rewrite (drained_is_init _ _ _ H). rewrite admits_from; cbn;
   split; [constructor|tauto]. Qed.
 
 (* ---------- non-interference between sources (C14, connection limiter) ---------- *)
-Definition op_tok (o : op) : option Z := match o with Arrive t _ => Some t | Finish t _ _ => Some t | BadSource => None | Burst t _ => Some t end.
+Definition op_tok (o : op) : option Z := match o with Arrive t _ => Some t | Finish t _ _ => Some t | BadSource => None | Rewrap => None | Burst t _ => Some t end.
 Definition is_tok (t : Z) (o : op) : bool := match op_tok o with Some t' => t' =? t | None => false end.
 
 (* the outputs a source observes in an interleaved history: those of its own operations *)
@@ -265,9 +269,10 @@ Fixpoint outs_of (t maxc : Z) (s : st) (ops : list op) : list (list Z) :=
   end.
 
 Lemma wfmap_step maxc s o : wfmap (cs s) -> wfmap (cs (fst (step maxc s o))).
-Proof. intros H. destruct o as [t a|t a p| |bt bk]; cbn [step].
+Proof. intros H. destruct o as [t a|t a p| | |bt bk]; cbn [step].
   - unfold acquire. destruct (maxc <=? get (cs s) t); cbn [fst cs]; [assumption|apply wfmap_set; assumption].
   - cbn [fst release cs]. apply wfmap_set; assumption.
+  - assumption.
   - assumption.
   - assumption. Qed.
 
@@ -277,7 +282,7 @@ Theorem conn_noninterference maxc t : forall ops s s',
 Proof. induction ops as [|o ops IH]; intros s s' Hw Hw' Hg; [reflexivity|].
   cbn [outs_of filter]. destruct (step maxc s o) as [s1 out] eqn:E.
   assert (Hw1 : wfmap (cs s1)) by (pose proof (wfmap_step maxc s o Hw) as W; rewrite E in W; exact W).
-  unfold is_tok. destruct o as [t0 a|t0 a p| |t0 bk]; cbn [op_tok].
+  unfold is_tok. destruct o as [t0 a|t0 a p| | |t0 bk]; cbn [op_tok].
   - destruct (Z.eqb_spec t0 t) as [->|Hne].
     + cbn [run_from]. cbn [step] in E |- *. unfold acquire in *. rewrite <- Hg.
       destruct (maxc <=? get (cs s) t); inv E.
@@ -290,6 +295,7 @@ Proof. induction ops as [|o ops IH]; intros s s' Hw Hw' Hg; [reflexivity|].
     + cbn [run_from step]. cbn [step] in E. inv E. f_equal.
       apply IH; cbn [release cs]; try (apply wfmap_set; assumption). rewrite !get_set_same by (apply Hw || apply Hw'). congruence.
     + apply IH; try assumption. cbn [step] in E. inv E. cbn [release cs]. rewrite get_set_other by assumption. assumption.
+  - cbn [step] in E. inv E. apply IH; assumption.
   - cbn [step] in E. inv E. apply IH; assumption.
   - cbn [step] in E. inv E. destruct (Z.eqb_spec t0 t) as [->|Hne].
     + cbn [run_from step]. rewrite Hg. f_equal. apply IH; assumption.
